@@ -217,6 +217,13 @@ def gen_cases(rng: Rng, tier):
     n = dict(quick=48, thorough=900)[tier]
     for k in range(n):
         yield _case(rng, big=(tier == "thorough" and k % 4 == 0), ufpca_only=(k % 3 == 0))
+    for k in (2, 3):  # structured: k fitted components, all-UFPCA, so that k×k score blocks are exercised in every run
+        c = _case(rng, ufpca_only=True)
+        c.update(n_components=k, normalize=(k == 3))
+        for e in c["exps"]:
+            if e["method"] == "UFPCA":
+                e["n_components"] = max(e["n_components"], 3)
+        yield c
     yield from _nano_cases(rng)
     for _ in range(dict(quick=30, thorough=300)[tier]):
         yield _bd_case(rng)
@@ -403,6 +410,32 @@ def _fit(case, order, est=None, typed=False):
             dev = "error:" + type(ex).__name__
         chk.append(dev)
     out["ps_option_dev"] = chk
+    # inverse_transform on score blocks of every row count around the number of fitted components (a square k×k block must
+    # not be mistaken for a transposed layout): first rows of the training scores and a random k×k block
+    K = len(np.asarray(est.eigenvalues))
+    blk_dev, blk_err = 0.0, None
+    if K >= 1 and all(_finite(x) for x in out["psi"]) and _finite(out["pace"]):
+        S = np.asarray(out["pace"], dtype=float)
+        rr = np.random.RandomState(K + len(S))
+        blocks = [S[:r] for r in sorted({1, K - 1, K, K + 1}) if 1 <= r <= len(S)] + [rr.randint(-4, 5, size=(K, K)) / 2.0]
+        sw = [np.sqrt(w) if est.normalize else 1.0 for w in np.asarray(est.weights, dtype=float)]
+        mean_now = [np.asarray(m.values)[0] for m in est.mean.data]
+        for B in blocks:
+            try:
+                with np.errstate(all="ignore"):
+                    rec_b = est.inverse_transform(B)
+                for q, r in enumerate(rec_b.data):
+                    want = sw[q] * (B @ np.asarray(out["psi"][q], dtype=float)) + mean_now[q][None, :]
+                    got = np.asarray(r.values, dtype=float)
+                    if got.shape != want.shape:
+                        blk_err = f"block {B.shape}: component {q} has shape {got.shape}, expected {want.shape}"
+                        break
+                    blk_dev = max(blk_dev, float(np.abs(got - want).max()) / max(float(np.abs(want).max()), 1e-300))
+            except Exception as e:  # noqa: BLE001
+                blk_err = f"block {B.shape}: {type(e).__name__}: {str(e)[:80]}"
+            if blk_err:
+                break
+    out["inv_block_dev"], out["inv_block_err"] = blk_dev, blk_err
     out["mean"] = [np.asarray(m.values)[0].tolist() for m in est.mean.data]
     out["weights"] = [float(w) for w in np.asarray(est.weights)]
     out["sqrtw"] = [float(np.sqrt(w)) for w in np.asarray(est.weights)]
@@ -1215,6 +1248,8 @@ def oracle(case, impl):
             sc = max(nu.max(), 1e-300)
             if np.abs(C - np.diag(nu)).max() > 1e-6 * sc:
                 bad("pace_scores", f"{tag}: cov(PACE scores) deviates from diag(eigenvalues) by {np.abs(C - np.diag(nu)).max():.3g} (scale {sc:.3g})", "MFPCA.transform", causes=causes)
+        if f.get("inv_block_err") or f.get("inv_block_dev", 0.0) > 1e-9:
+            bad("inverse_transform", f"{tag}: inverse_transform of score blocks with 1, k-1, k, k+1 rows / a random k×k block (k = {K} fitted components) is not mean + (√weight·)scores·eigenfunctions: {f.get('inv_block_err') or f.get('inv_block_dev')}", "MFPCA.inverse_transform", causes=[c for c in causes if c == "nonpositive_eigenvalue_retained"])
         # (3) inverse_transform = mean + √weight · scores · ψ on each component's grid
         S = np.asarray(f["pace"], dtype=float)
         for q, p in enumerate(f["order"]):
